@@ -194,7 +194,10 @@ where
     F: Fn(&char) -> bool,
 {
     one_p('&')
-        .and(one_p(radix), StringCombiner)
+        .and(
+            read_p().filter(move |ch: &char| ch.eq_ignore_ascii_case(&radix)),
+            StringCombiner,
+        )
         .and(
             one_char_to_str('-')
                 .to_option()
